@@ -512,12 +512,15 @@ func (g *G) dynamic1() reflect.Value {
 
 // TopShapes: the top-level shapes of C01.
 var topSliceTypes = []reflect.Type{
+	T([]Status{}), T([]Label{}),
 	T([]int32{}), T([]int64{}), T([]float64{}), T([]string{}), T([]bool{}), T([]Inner{}), T([]*Inner{}), T([][]int32{}), T([][]byte{}), T([]time.Time{}), T([]int16{}), T([]uint32{}),
 }
 var topMapTypes = []reflect.Type{
+	T(map[Label]Status{}),
 	T(map[interface{}]interface{}{}), T(map[string]int32{}), T(map[string]string{}), T(map[int32]string{}), T(map[string]*Inner{}), T(NMap{}), T(PlainMap{}), T(map[string][]int32{}),
 }
 var topScalarTypes = []reflect.Type{
+	T(Status(0)), T(Label("")), T(Flag(false)), T(Ratio(0)), T(BigID(0)),
 	T(true), T(int8(0)), T(int16(0)), T(int32(0)), T(int(0)), T(int64(0)), T(uint8(0)), T(uint16(0)), T(uint32(0)), T(uint(0)), T(uint64(0)), T(float32(0)), T(float64(0)), T(""), T([]byte{}), TimeType,
 }
 
